@@ -113,7 +113,9 @@ def run(ctx):
                 continue
             if "read:ok" in tr:
                 after = tr[tr.index("read:ok"):]
-                ctx.ob("C08.a", send.qual, "write" not in after and p.kind == "normal", f"R={R}: no retransmission after a response [{desc}]",
+                # (when the loop lives in an extracted helper, handing the response back is the helper's `return`)
+                done = p.kind == "normal" or (p.kind == "return" and send_owner.qual != send.qual)
+                ctx.ob("C08.a", send.qual, "write" not in after and done, f"R={R}: no retransmission after a response [{desc}]",
                        func=send.qual, file=file, construct=f"budget {R}: after response",
                        fail=f"budget {R}: after a response arrived the loop {'retransmits' if 'write' in after else 'does not return the response (' + p.kind + ')'} [{desc}]")
             else:
